@@ -18,8 +18,10 @@ def build(desc):
     if desc.get("eq"):
         vs = [C.EqVertex(attributes={"i": i}) for i in range(nv)]
     else:
-        vs = [C.make_vertex(i, None if not vcls else C.VERTEX_CLASSES[vcls[i % len(vcls)] % 4]) for i in range(nv)]
-    ls = [C.LINK_CLASSES[c % 6](vs[a % nv], vs[b % nv]) for c, a, b in desc["edges"]]
+        nvc = len(C.VERTEX_CLASSES) if desc.get("wide") else 4
+        vs = [C.make_vertex(i, None if not vcls else C.VERTEX_CLASSES[vcls[i % len(vcls)] % nvc]) for i in range(nv)]
+    nlc = len(C.LINK_CLASSES) if desc.get("wide") else 6
+    ls = [C.LINK_CLASSES[c % nlc](vs[a % nv], vs[b % nv]) for c, a, b in desc["edges"]]
     for l, end, j in desc.get("reassign", ()):
         if ls:
             if end:
@@ -110,11 +112,12 @@ def eq_graph_descs(max_v=5, max_e=8):
     )
 
 
-def graph_descs(max_v=8, max_e=14, classes=6, vcls=True, max_reassign=3, min_v=1, min_e=0):
+def graph_descs(max_v=8, max_e=14, classes=6, vcls=True, max_reassign=3, min_v=1, min_e=0, wide=False):
     cls = st.integers(0, classes - 1)
 
     def mk(nv, edges, reassign, vc):
         return {
+            **({"wide": True} if wide else {}),
             "nv": nv,
             "vcls": vc,
             "edges": [[c, a % nv, b % nv] for c, a, b in edges],
@@ -126,5 +129,5 @@ def graph_descs(max_v=8, max_e=14, classes=6, vcls=True, max_reassign=3, min_v=1
         st.integers(min_v, max_v),
         st.lists(st.tuples(cls, st.integers(0, max_v - 1), st.integers(0, max_v - 1)), min_size=min_e, max_size=max_e),
         st.lists(st.tuples(st.integers(0, max_e - 1), st.booleans(), st.integers(0, max_v - 1)), max_size=max_reassign),
-        (st.one_of(st.none(), st.lists(st.integers(0, 3), min_size=1, max_size=4)) if vcls else st.none()),
+        (st.one_of(st.none(), st.lists(st.integers(0, 4 if wide else 3), min_size=1, max_size=4)) if vcls else st.none()),
     )
